@@ -598,6 +598,8 @@ pub fn exec_line(sess: &mut Session, line: &str) -> String {
         "@open_bytes" => {
             // arbitrary bytes into Package::open, then the read API on whatever opens
             let bytes = bytes_of_hex(toks[1]).unwrap();
+            sess.pkg = None;
+            sess.medium = Some(crate::session::Medium::new(bytes.clone()));
             match msi::Package::open(crate::session::Medium::new(bytes)) {
                 Ok(mut pkg) => {
                     let _ = crate::session::snapshot(&mut pkg);
@@ -607,6 +609,40 @@ pub fn exec_line(sess: &mut Session, line: &str) -> String {
             }
         }
         "@fault_sweep" => crate::faults::sweep(toks[1].parse().unwrap(), toks[2], toks[3]),
+        "@ffi_check" => {
+            // the C interface on the bytes of the medium as they are now: it must not abort, and
+            // must report what the Rust API reports
+            let m = match &sess.medium {
+                Some(m) => m.clone(),
+                None => return "no-package".to_string(),
+            };
+            let path = std::env::temp_dir().join(format!("msi_verif_ffi_{}.msi", std::process::id()));
+            if std::fs::write(&path, m.snapshot_bytes()).is_err() {
+                return "io-error".to_string();
+            }
+            let p = path.to_string_lossy().to_string();
+            let child = std::process::Command::new(std::env::current_exe().unwrap()).arg("ffi").arg(&p).output();
+            let exp = std::panic::catch_unwind(|| crate::ffi::expected(&p)).unwrap_or(None).unwrap_or_else(|| {
+                let e = hex_of_str("");
+                let mut d: Vec<String> = vec![format!("arch {e}"), format!("author {e}"), format!("comments {e}"), format!("app {e}"), "time-set false".into(), "languages ".into(), format!("subject {e}"), format!("title {e}"), format!("uuid {e}"), "words 0".into(), "sig false".into(), "tables ".into()];
+                d.push(format!("table {} ", hex_of_str("No such table")));
+                d
+            });
+            let _ = std::fs::remove_file(&path);
+            match child {
+                Ok(o) if o.status.success() => {
+                    let got: Vec<String> = String::from_utf8_lossy(&o.stdout).lines().map(|l| l.to_string()).collect();
+                    if got == exp {
+                        format!("ok lines={}", got.len())
+                    } else {
+                        let k = got.iter().zip(exp.iter()).position(|(a, b)| a != b).unwrap_or(got.len().min(exp.len()));
+                        format!("mismatch at {k}: C interface `{}` API `{}`", got.get(k).map(|s| &s[..s.len().min(120)]).unwrap_or("-"), exp.get(k).map(|s| &s[..s.len().min(120)]).unwrap_or("-"))
+                    }
+                }
+                Ok(o) => format!("abort {:?}", o.status),
+                Err(_) => "spawn-error".to_string(),
+            }
+        }
         "@readonly_close" => {
             // close the current package (which was only read since it was opened) and report
             // how many writes reached the medium since the open and whether its bytes changed
@@ -947,7 +983,8 @@ pub fn exec_line(sess: &mut Session, line: &str) -> String {
                 let text = str_of_hex(toks[4]).unwrap();
                 pkg.summary_info_mut().set_codepage(cp_by_name(toks[3]).unwrap());
                 pkg.summary_info_mut().set_author(text.clone());
-                pkg.summary_info_mut().set_subject(text);
+                let subject = if toks.len() >= 6 { str_of_hex(toks[5]).unwrap() } else { text };
+                pkg.summary_info_mut().set_subject(subject);
             }
             pkg.summary_info_mut().set_creation_time(t);
             let cur = pkg.into_inner().unwrap();
